@@ -40,14 +40,49 @@ def signs_builder(seed, n, defaults, tag):
     return cases, metas
 
 
+def minstep_builder(seed, n, defaults, tag):
+    """min_step (a lower bound on the step, used by Radau and BDF; the explicit methods ignore it) together with steps
+    that cannot succeed at that size: blow-up, a right-hand side turning NaN / inf, a discontinuity, a tolerance out of
+    reach.  min_step stays below the interval length and below max_step (a lower bound above the upper one is not a
+    valid configuration)."""
+    import random
+    from . import gen, sweep
+    rng = random.Random(seed)
+    cases, metas = [], {}
+    k = 0
+    for method in sweep.available_methods():
+        for fam in (gen.fam_blowup, gen.fam_nan_after, gen.fam_inf_after, gen.fam_discont, gen.fam_sho, gen.fam_vdp_stiff):
+            for frac in (1e-6, 1e-3, 3e-2, 0.4):
+                prob = fam(rng)
+                x0 = prob.get("x0", 0.0)
+                d = -1.0 if (rng.random() < 0.3 and not prob.get("forward_only") and x0 == 0.0) else 1.0
+                p2 = dict(prob)
+                if d < 0:    # the mirrored problem z' = -f(-s, z), integrated backward from 0
+                    from .p_c13 import subst_reflect
+                    p2["f"] = ["neg," + subst_reflect(e) for e in prob["f"]]
+                    p2.pop("jac", None)
+                kw = dict(method=method, prob=p2, x0=x0, xend=x0 + d * prob["span"], rtol=10 ** rng.uniform(-9, -3),
+                          atol=10 ** rng.uniform(-11, -5), defaults=defaults, min_step=frac * prob["span"],
+                          dense=rng.random() < 0.3)
+                if rng.random() < 0.3:
+                    kw["max_steps"] = rng.choice([50, 5000])
+                cid = "%s%d" % (tag, k)
+                k += 1
+                cases.append(gen.solve_case(cid, **kw))
+                metas[cid] = ({"family": prob["name"] + "+min_step", "n": len(prob["y0"]), "backward": d < 0,
+                               "tolmode": "mixed", "method": method, "min_step_frac": frac}, kw)
+    return cases, metas
+
+
 def check():
     prof = dict(PROFILES["patho"])
     prof["options"] = opt_budget
     return solvercheck.run(
         "C04", "C04.v" if __import__("os").path.exists(__import__("os").path.join(solvercheck.common.COQ, "props", "C04.v")) else None,
         [dict(profile=prof, n_quick=120, n_thorough=1500, isolated=True, timeout=60),
-         dict(builder=signs_builder, n_quick=1, n_thorough=1, isolated=True, timeout=45)],
+         dict(builder=signs_builder, n_quick=1, n_thorough=1, isolated=True, timeout=45),
+         dict(builder=minstep_builder, n_quick=1, n_thorough=1, isolated=True, timeout=45)],
         [oracles.oracle_C04, oracles.oracle_shapes], TB,
         "pathological right-hand sides (finite-time blow-up y'=y^2 and y'=1+y^2, stiff decay with explicit methods, discontinuous, "
-        "NaN-/inf-returning after t*) x 6 methods x default and finite budgets; one process per case with a 60 s watchdog and an "
+        "NaN-/inf-returning after t*) x 6 methods x default and finite budgets, and the same with a min_step; one process per case with a 60 s watchdog and an "
         "address-space limit (hang => violation), panics caught; each case also replayed on the model; non-trivial = >= 2 accepted steps")
